@@ -1142,7 +1142,8 @@ def inline_locals(fnode, expr, depth=6):
         if isinstance(n, ast.Assign):
             for t in n.targets:
                 for x in ast.walk(t):
-                    if isinstance(x, ast.Name):
+                    if isinstance(x, ast.Name) and isinstance(
+                            x.ctx, (ast.Store, ast.Del)):
                         defs.setdefault(x.id, []).append(
                             n.value if (x is t and len(n.targets) == 1)
                             else None)
